@@ -10,7 +10,7 @@ use std::process::{Command, Stdio};
 use std::time::{Duration, Instant};
 use text2num::{find_numbers, find_numbers_iter, get_interpreter_for, replace_numbers_in_stream, replace_numbers_in_text, text2digits};
 
-pub const CHARS: [char; 19] = ['o', 'n', 'e', 'z', 't', '-', '\'', '.', ',', ' ', '\n', 'é', '\u{301}', '\u{a0}', 'İ', '1', '三', '😀', 'ẞ'];
+pub const CHARS: [char; 21] = ['o', 'n', 'e', 'z', 't', '-', '\'', '.', ',', ' ', '\n', 'é', '\u{301}', '\u{a0}', 'İ', '1', '三', '😀', 'ẞ', '\u{2019}', '\r'];
 pub const THRS: [f64; 6] = [0.0, 10.0, -1.0, f64::INFINITY, f64::NEG_INFINITY, f64::NAN];
 
 const T_EXTREME: [f64; 2] = [0.0, f64::NAN];
@@ -323,7 +323,7 @@ pub fn run(tier: Tier) -> i32 {
             }
         }
     }
-    let limit = Duration::from_secs(tier.pick(240, 1800));
+    let limit = Duration::from_secs(tier.pick(60, 1200));
     let machinery_failure = std::sync::Mutex::new(None::<String>);
     let results: Vec<(Vec<String>, Acc)> = jobs
         .par_iter()
@@ -364,7 +364,7 @@ pub fn run(tier: Tier) -> i32 {
                     // crash (abort, stack overflow, OOM) or timeout: rerun traced to pin the input
                     let trace = format!("{}/target/c03-trace-{}-{}-{}.txt", verif_root(), args[0], args[1], args[2]);
                     let crashed = matches!(end, ChildEnd::Crashed(_));
-                    let second = run_child(&exe, args, limit * 3, Some(&trace), Some(Duration::from_secs(45)));
+                    let second = run_child(&exe, args, limit * 3, Some(&trace), Some(Duration::from_secs(20)));
                     let culprit: String = serde_json::from_str(&last_line(&trace)).unwrap_or_default();
                     let _ = std::fs::remove_file(&trace);
                     match second {
@@ -392,8 +392,8 @@ pub fn run(tier: Tier) -> i32 {
                             input: culprit,
                             threshold: None,
                             clause: "terminates".into(),
-                            expected: "returns within 45 s".into(),
-                            observed: "no progress for 45 s on this input".into(),
+                            expected: "returns within 20 s".into(),
+                            observed: "no progress for 20 s on this input".into(),
                         }),
                     }
                 }
@@ -412,14 +412,14 @@ pub fn run(tier: Tier) -> i32 {
     acc.nontrivial = acc.states;
     let cov = json!({
         "exhaustive": true,
-        "rule": "(a) every string of length <= k over 19 characters; (b) every sequence of <= k atoms over the full vocabulary plus {\"\",-,--,-a,a-} joined by space and by hyphen; (c) a fixed smoke list of long inputs (NOT an exhaustive space); each x 7 languages x {text2digits, replace_numbers_in_text, find_numbers, find_numbers_iter drained, replace_numbers_in_stream} x thresholds; get_interpreter_for on the strings of (a)",
+        "rule": "(a) every string of length <= k over 21 characters; (b) every sequence of <= k atoms over the full vocabulary plus {\"\",-,--,-a,a-} joined by space and by hyphen; (c) a fixed smoke list of long inputs (NOT an exhaustive space); each x 7 languages x {text2digits, replace_numbers_in_text, find_numbers, find_numbers_iter drained, replace_numbers_in_stream} x thresholds; get_interpreter_for on the strings of (a)",
         "characters": CHARS.iter().map(|c| format!("U+{:04X}", *c as u32)).collect::<Vec<_>>(),
         "bounds": {"a_max_len": tier.pick(4, 6), "a_len6_thresholds": "0, NaN only", "b_max_atoms": tier.pick(2, 3), "c_repetitions": tier.pick(3000, 20_000)},
         "thresholds": THRS.iter().map(|t| thr_name(*t)).collect::<Vec<_>>(),
         "child_processes": jobs.len(),
     });
     ctx.finish(acc, cov, vec![
-        "termination is decided up to a watchdog (45 s without progress on one input)".into(),
+        "termination is decided up to a watchdog (20 s without progress on one input)".into(),
         "part (c) is a scaling smoke list, not an exhaustive space".into(),
     ])
 }
